@@ -26,6 +26,7 @@ type SInode struct {
 	Gen   int      `json:"gen"`
 	Size  int      `json:"size"`
 	Ssz   int      `json:"ssz"`  // ShrinkSize, in blocks
+	Tm    []int    `json:"tm"`   // atime and mtime: seconds (mod 10^9) and nanoseconds each
 	Blks  []int    `json:"blks"` // the 10 pointers of the inode
 	Data  [][2]int `json:"data"` // [logical block index, block number] of every mapped data block
 	Ind   [][2]int `json:"ind"`  // [block number, level] of every indirect block reachable
@@ -59,6 +60,7 @@ type SCache struct {
 	Gen   int   `json:"gen"`
 	Size  int   `json:"size"`
 	Ssz   int   `json:"ssz"`
+	Tm    []int `json:"tm"`
 	Blks  []int `json:"blks"`
 	HasDc bool  `json:"hasdc"`
 	Dc    []SDc `json:"dc"`
@@ -180,6 +182,8 @@ func TakeSnap(s *Srv, who string, running bool) *Snap {
 			in.Gen = Clamp(binary.LittleEndian.Uint64(raw[8:]))
 			in.Size = Clamp(binary.LittleEndian.Uint64(raw[16:]))
 			in.Ssz = Clamp(binary.LittleEndian.Uint64(raw[24:]))
+			in.Tm = []int{int(binary.LittleEndian.Uint32(raw[32:]) % 1000000000), int(binary.LittleEndian.Uint32(raw[36:]) % 1000000000),
+				int(binary.LittleEndian.Uint32(raw[40:]) % 1000000000), int(binary.LittleEndian.Uint32(raw[44:]) % 1000000000)}
 			for j := 0; j < 10; j++ {
 				in.Blks = append(in.Blks, Clamp(binary.LittleEndian.Uint64(raw[48+8*j:])))
 			}
@@ -277,7 +281,9 @@ func TakeSnap(s *Srv, who string, running bool) *Snap {
 			}
 			ip := obj.(*inode.Inode)
 			c := SCache{Inum: int(id), Kind: int(ip.Kind), Nlink: Clamp(uint64(ip.Nlink)), Gen: Clamp(ip.Gen), Size: Clamp(ip.Size),
-				Ssz: Clamp(ip.ShrinkSize), Blks: []int{}, Dc: []SDc{}}
+				Ssz: Clamp(ip.ShrinkSize), Blks: []int{}, Dc: []SDc{},
+				Tm: []int{int(uint32(ip.Atime.Seconds) % 1000000000), int(uint32(ip.Atime.Nseconds) % 1000000000),
+					int(uint32(ip.Mtime.Seconds) % 1000000000), int(uint32(ip.Mtime.Nseconds) % 1000000000)}}
 			for _, b := range ip.VerifBlks() {
 				c.Blks = append(c.Blks, Clamp(b))
 			}
